@@ -86,7 +86,7 @@ func c15Signedness(c *core.Ctx) {
 }
 
 func c15Rebind(c *core.Ctx) {
-	nh := c.N(60, 1500)
+	nh := c.N(150, 1500)
 	for idx := 0; idx < nh; idx++ {
 		if !c.Mine(idx) {
 			continue
